@@ -322,6 +322,28 @@ func genLivesim(t *rapid.T) Req {
 	return r
 }
 
+// genLLBoundary builds low-latency requests whose availabilityTimeOffset sits at, just below, just above or far above the
+// segment duration of the asset (the chunk duration is segment duration minus offset): boundary values that only make sense
+// in relation to the asset, which independent hostile values rarely hit.
+func genLLBoundary(t *rapid.T) Req {
+	type ad struct {
+		asset string
+		segMS int
+		media []string
+	}
+	a := rapid.SampledFrom([]ad{{"testpic_2s", 2000, []string{"V300/499.m4s", "A48/499.m4s", "V300/300.m4s"}}, {"testpic_8s", 8000, []string{"V300/120.m4s", "A48/124.m4s"}},
+		{"testpic_6s", 6000, []string{"V300/160.m4s", "A48/165.m4s"}}, {"bbb_hevc_ac3_8s", 8000, []string{"video/120.m4s", "audio/124.m4s"}}}).Draw(t, "asset")
+	atoMS := a.segMS + rapid.SampledFrom([]int{0, 0, 0, -1, 1, -a.segMS / 2, a.segMS, -a.segMS + 1, -a.segMS}).Draw(t, "dato")
+	parts := []string{"ato_" + strconv.FormatFloat(float64(atoMS)/1000, 'f', -1, 64),
+		"chunkdur_" + rapid.SampledFrom([]string{"0.5", "1", "0.001", strconv.Itoa(a.segMS / 1000), "0.25"}).Draw(t, "chunkdur")}
+	if rapid.Bool().Draw(t, "tl") {
+		parts = append(parts, rapid.SampledFrom([]string{"segtimeline_1", "segtimelinenr_1", "eccp_cbcs", "start_100", "snr_3"}).Draw(t, "extra"))
+	}
+	parts = rapid.Permutation(parts).Draw(t, "order")
+	file := rapid.SampledFrom(append(a.media, "Manifest.mpd")).Draw(t, "file")
+	return Req{Method: "GET", URL: "/livesim2/" + strings.Join(parts, "/") + "/" + a.asset + "/" + file + "?nowMS=" + strconv.Itoa(fixedNow), Why: "low-latency boundary"}
+}
+
 // genUnknown builds requests whose only peculiarity is an unknown asset / representation / segment: 404 expected.
 func genUnknown(t *rapid.T) Req {
 	typ := rapid.SampledFrom([]string{"", "segtimeline_1/", "segtimelinenr_1/"}).Draw(t, "type")
@@ -485,8 +507,10 @@ func TestC08Server(t *testing.T) {
 	n := 0
 	run.Rapid(t, 1, 40000, 250000, func(rt *rapid.T) {
 		var r Req
-		kind := rapid.SampledFrom([]string{"livesim2", "livesim2", "livesim2", "unknown", "other", "other"}).Draw(rt, "kind")
+		kind := rapid.SampledFrom([]string{"livesim2", "livesim2", "livesim2", "unknown", "other", "other", "ll-boundary"}).Draw(rt, "kind")
 		switch kind {
+		case "ll-boundary":
+			r = genLLBoundary(rt)
 		case "livesim2":
 			r = genLivesim(rt)
 		case "unknown":
